@@ -52,9 +52,12 @@ def main(tier, replay=None):
         fm = model_runs(chk, tier, ex)
         f_limpl = ex.submit(vlib.tlc, "ListImpl", "List_impl_edges.cfg", chk.wd, 4, "4g")        # List.c transcribed: links, head, tail, List_At from either end
         f_lbug = ex.submit(vlib.tlc, "ListImpl", "List_bug_staleprev.cfg", chk.wd, 2, "2g")
+        f_sort = ex.submit(vlib.tlc, "SortImpl", "Sort_impl.cfg", chk.wd, 2, "2g")               # the quicksort transcribed, every input <= 5 over 3 values x lt / le / gt / ge
+        f_sbug = ex.submit(vlib.tlc, "SortImpl", "Sort_bug_visitpivot.cfg", chk.wd, 2, "2g")
         harness = f_lib.result()
         models = {k: f.result() for k, f in fm.items()}
         r_limpl, r_lbug = f_limpl.result(), f_lbug.result()
+        r_sort, r_sbug = f_sort.result(), f_sbug.result()
     chk.lap("built + TLC exhaustive")
     if replay:
         return runner.replay_file(chk, harness, replay, "SeqTrace", "SeqTrace_seq.cfg", HDR_WORDS)
@@ -66,6 +69,30 @@ def main(tier, replay=None):
         raise vlib.ToolError("ListImpl does not refute a stale prev link of the head: invariants vacuous")
     camp = runner.Campaign(chk, harness, "SeqTrace", "SeqTrace_seq.cfg")
     vt = {0: 1, 1: 2, 2: 3}
+    chk.model(r_sort, "SortImpl/Sort_impl.cfg")
+    if not r_sort.ok:
+        print("MODEL-DRIFT module=SortImpl: %s" % r_sort.invariant, flush=True)
+    if r_sbug.ok:
+        raise vlib.ToolError("SortImpl does not refute a partition scan that visits the pivot: invariant vacuous")
+    # every case of the sort model on the real library: Arrays and Tuples, sort_by with lt / le / gt / ge
+    import json as _json
+    cases = list(r_sort.lines("CASE"))
+    if len(cases) < 1000:
+        raise vlib.ToolError("SortImpl printed %d cases" % len(cases))
+    if quick:
+        cases = [c for c in cases if len(c["inp"]) >= 3][::2] + [c for c in cases if len(c["inp"]) < 3]
+    sx = []
+    for kind in ("Array", "Tuple"):
+        for i in range(0, len(cases), 40):
+            L = ["reset"]
+            for j, c in enumerate(cases[i:i + 40]):
+                o = (1, 3, 4)[j % 3]
+                if j >= 3: L.append("del %d" % o)
+                L.append("new %d %s%s" % (o, kind, "".join(" %d" % vt[v] for v in c["inp"])))
+                L.append("sortby %d %s" % (o, c["cmp"]))
+            sx.append(L)
+    camp.run(seqgen.header("Int", INTS), sx, "replay/SortImpl", variant="SortImpl")
+    chk.cov["model_cases"] = len(cases) * 2
     # every transition of the linked-list implementation model (walks from the head and from the tail, the four link / unlink cases)
     ledges = list(r_limpl.lines("EDGE"))
     vlib.require_ops(ledges, ("push", "pop", "pushat", "popat", "set", "get", "rem", "resize"), "ListImpl")
